@@ -34,17 +34,25 @@ call (bytecode interleavings on the shared JobStatus, e.g. a status query betwee
 """
 from __future__ import annotations
 
+import collections
 import copy
 import glob
 import json
 import os
 import queue
+import subprocess
+import sys
 import threading
 
 from . import core
 
 WAIT = 120.0         # hang detector for one acknowledgement / one join (seconds); generous: the machine may be
                      # heavily loaded.  A time-out is a HARNESS problem (HarnessTimeout -> exit 2), never a verdict.
+
+
+INSTANT_SWITCH = 2.0  # interpreter switch interval (seconds) in force only DURING an "instant" execute_async call
+                      # (see Runner.run_prefilled): the freshly started worker keeps the interpreter until it
+                      # blocks or ends, i.e. the schedule "the task is over before Thread.start() returns"
 
 
 class HarnessTimeout(Exception):
@@ -58,8 +66,14 @@ def key_name(k: int) -> str:
     return "max_samples" if k == 0 else f"k{k}"
 
 
-def key_id(name: str) -> int:
-    return 0 if name == "max_samples" else int(name[1:])
+def key_id(name: str):
+    """the model's number of a parameter name; a name the harness never used (it can only come from elsewhere, e.g.
+    from another job) stays as it is, so that it is reported and not crashed upon"""
+    if name == "max_samples":
+        return 0
+    if isinstance(name, str) and name[:1] == "k" and name[1:].isdigit():
+        return int(name[1:])
+    return f"?{name!r}"
 
 
 class TaskFailure(Exception):
@@ -88,7 +102,7 @@ def py_dict(d):
 
 
 def canon_dict(d: dict):
-    return sorted([[key_id(k), v] for k, v in d.items()], key=lambda e: e[0])
+    return sorted([[key_id(k), v] for k, v in d.items()], key=lambda e: (isinstance(e[0], str), e[0]))
 
 
 def norm_dict(d):
@@ -177,10 +191,41 @@ def canon_exc(e: BaseException) -> str:
 # ------------------------------------------------------------------------------------------------
 # running one history against the real code
 # ------------------------------------------------------------------------------------------------
+def instant_segment(word, mouts, i):
+    """For an execute_async at index i that the model accepts: the indices of its in-flight events if the task can
+    run through WITHOUT the caller thread — the task ends within the word and every caller action before that is
+    performed inside an open user callback (on the worker thread) — else None."""
+    if mouts[i]["o"] != "accepted":
+        return None
+    seg = []
+    cb_open = False
+    for x in range(i + 1, len(word)):
+        o = mouts[x]
+        if o["o"] == "disabled":
+            continue
+        seg.append(x)
+        if word[x]["e"] in TASK_KINDS:
+            cb_open = o["o"] == "progressed" and o["cb"] is not None
+            if o["o"] == "finished":
+                return seg
+        elif not cb_open:
+            return None
+    return None
+
+
 class Runner:
-    def __init__(self, cfg):
+    def __init__(self, cfg, ctor=None, instant=False, hook=None):
+        """`ctor`: HOW the constructor arguments are passed (None = everything explicitly): {"delta": "explicit" |
+        "omit" | "none", "names": "explicit" | "omit", "mapfn": "explicit" | "omit"} — an argument can only be omitted
+        (or passed as None) when its value is the documented default (no preset parameters / no positional names / no
+        conversion).  `instant`: an execute_async whose task can run through on its own is executed with all task steps
+        queued beforehand (the task never waits).  `hook` = (index, fn): fn() is called once, on the caller thread,
+        before event `index` of the word is performed (used to create and run OTHER jobs meanwhile)."""
         from perceval.runtime import LocalJob
         self.cfg = cfg
+        self.instant = instant
+        self.hook = hook
+        self.entered = threading.Event()
         self.cmds: queue.Queue = queue.Queue()
         self.acks: queue.Queue = queue.Queue()
         self.pushback = None
@@ -195,9 +240,19 @@ class Runner:
         self.thread = None
         self.hung = False
         self.async_accepted = False
-        delta = {"command": py_dict(cfg["cmd"]), "mapping": py_dict(cfg["mapping"])}
-        self.job = LocalJob(self.task, result_mapping_function=mapping_function if cfg["map"] else None,
-                            delta_parameters=delta, command_param_names=[key_name(k) for k in cfg["names"]])
+        ctor = ctor or {}
+        bare = not cfg["cmd"] and not cfg["mapping"]
+        kwargs = {}
+        if cfg["map"] or ctor.get("mapfn", "explicit") != "omit":
+            kwargs["result_mapping_function"] = mapping_function if cfg["map"] else None
+        how = ctor.get("delta", "explicit")
+        if how == "explicit" or not bare:
+            kwargs["delta_parameters"] = {"command": py_dict(cfg["cmd"]), "mapping": py_dict(cfg["mapping"])}
+        elif how == "none":
+            kwargs["delta_parameters"] = None
+        if cfg["names"] or ctor.get("names", "explicit") != "omit":
+            kwargs["command_param_names"] = [key_name(k) for k in cfg["names"]]
+        self.job = LocalJob(self.task, **kwargs)
         self.cb1 = self.make_cb(1)
         self.cb2 = self.make_cb(2)
         if cfg["cb"]:
@@ -221,6 +276,7 @@ class Runner:
             self.extra_entries += 1
             return {"results": 424242}
         self.thread = threading.current_thread()
+        self.entered.set()
         self.acks.put(("started", dict(kw), callable(progress_callback)))
         while True:
             cmd = self.next_cmd()
@@ -390,6 +446,73 @@ class Runner:
             return a[1]
         return {"o": "not-performed", "got": repr(a)[:120]}
 
+    def run_prefilled(self, word, mouts, outs, st, i, seg, is_async):
+        """The execute call at index i together with its whole in-flight segment `seg`: every command of the segment
+        is queued BEFORE the call, so the task (and the callbacks) never wait for the harness.  Synchronous call: there
+        is no second thread at all.  Asynchronous call ("instant"): the worker thread runs the task through on its own;
+        the interpreter's switch interval is raised for the duration of the execute_async call so that the worker keeps
+        the interpreter from the moment it is started until it ends — the legal schedule in which the task is over
+        before `Thread.start()` returns to `execute_async` (the opposite extreme, a worker that does nothing until the
+        call has returned, is what the lock-step mode forces).  Returns the index to continue with, or None when the
+        code left the model's path."""
+        ev = word[i]
+        for x in seg:
+            c = self.cmd_of(word[x])
+            if c is not None:
+                self.cmds.put(c)
+        self.prefilled = True
+        calls_before = self.calls
+        args, kw = self.call_args(ev)
+        accepted_async = None
+        try:
+            if is_async:
+                old = sys.getswitchinterval()
+                sys.setswitchinterval(INSTANT_SWITCH)
+                try:
+                    r = self.job.execute_async(*args, **kw)
+                finally:
+                    sys.setswitchinterval(old)
+                accepted_async = {"o": "accepted"} if r is self.job else {"o": "accepted", "returned": repr(r)[:40]}
+                self.async_accepted = True
+                res = None
+                if not self.entered.wait(WAIT):
+                    self.hung = True
+                else:
+                    self.thread.join(WAIT)
+                    if self.thread.is_alive():
+                        self.hung = True
+            else:
+                res = {"val": canon_ret(self.job.execute_sync(*args, **kw))}
+        except Abort:
+            res = {"aborted": True}
+        except Exception as e:
+            res = {"err": canon_exc(e), "cls": type(e).__name__, "text": str(e)[:200]}
+        if self.hung:
+            self.prefilled = False
+            return None
+        started = self.calls > calls_before
+        if is_async and accepted_async is None:
+            started = False
+        if not started:
+            outs[i] = {"o": "exc", "e": res["err"], "cls": res["cls"], "text": res["text"]} \
+                if (res is not None and "err" in res) else {"o": "returned-without-running", "res": res}
+            for x in seg:
+                outs[x] = {"o": "not-executed"}
+        else:
+            outs[i] = accepted_async if is_async else {"o": "accepted"}
+            for x in seg:
+                outs[x] = self.flight_step(word[x], st, lambda: {"o": "finished", "sync": res})
+        self.prefilled = False
+        while not self.cmds.empty():
+            self.cmds.get_nowait()
+        while not self.acks.empty():
+            self.acks.get_nowait()
+        self.pushback = None
+        st["cb_open"] = False
+        if any(outs[x] is not None and outs[x]["o"] != mouts[x]["o"] for x in [i] + seg):
+            return None                # the code left the model's path: what follows cannot be driven
+        return (seg[-1] + 1) if seg else i + 1
+
     def run(self, word, mouts):
         """Execute `word`; `mouts` = the model's outputs (used only to skip events the model calls disabled
         and to find the end of a synchronous run).  Returns (outs, final)."""
@@ -398,7 +521,12 @@ class Runner:
         st = {"cb_open": False}
         i = 0
         n = len(word)
+        hook_done = self.hook is None
+        left_path = False
         while i < n and not self.hung:
+            if not hook_done and i >= self.hook[0]:
+                hook_done = True
+                self.hook[1]()
             ev = word[i]
             if mouts[i]["o"] == "disabled":
                 outs[i] = {"o": "disabled"}
@@ -406,6 +534,7 @@ class Runner:
                 continue
             k = ev["e"]
             if phase == "top":
+                seg = None
                 if k == "sync":
                     j = i + 1          # in-flight segment: up to the model's `finished`
                     while j < n and mouts[j]["o"] != "finished":
@@ -413,44 +542,21 @@ class Runner:
                     seg = [x for x in range(i + 1, min(j + 1, n)) if mouts[x]["o"] != "disabled"]
                     if mouts[i]["o"] != "accepted":
                         seg = []
-                    for x in seg:
-                        c = self.cmd_of(word[x])
-                        if c is not None:
-                            self.cmds.put(c)
-                    self.prefilled = True
-                    calls_before = self.calls
-                    args, kw = self.call_args(ev)
-                    try:
-                        res = {"val": canon_ret(self.job.execute_sync(*args, **kw))}
-                    except Abort:
-                        res = {"aborted": True}
-                    except Exception as e:
-                        res = {"err": canon_exc(e), "cls": type(e).__name__, "text": str(e)[:200]}
-                    started = self.calls > calls_before
-                    if not started:
-                        outs[i] = {"o": "exc", "e": res["err"], "cls": res["cls"], "text": res["text"]} \
-                            if "err" in res else {"o": "returned-without-running", "res": res}
-                        for x in seg:
-                            outs[x] = {"o": "not-executed"}
-                    else:
-                        outs[i] = {"o": "accepted"}
-                        for x in seg:
-                            outs[x] = self.flight_step(word[x], st, lambda: {"o": "finished", "sync": res})
-                    self.prefilled = False
-                    while not self.cmds.empty():
-                        self.cmds.get_nowait()
-                    while not self.acks.empty():
-                        self.acks.get_nowait()
-                    self.pushback = None
-                    if any(outs[x] is not None and outs[x]["o"] != mouts[x]["o"] for x in [i] + seg):
-                        break              # the code left the model's path: what follows cannot be driven
-                    i = (seg[-1] + 1) if seg else i + 1
+                elif k == "async" and self.instant:
+                    seg = instant_segment(word, mouts, i)
+                if seg is not None:
+                    nxt = self.run_prefilled(word, mouts, outs, st, i, seg, k == "async")
+                    if nxt is None:
+                        left_path = True
+                        break
+                    i = nxt
                     continue
                 outs[i] = self.perform(ev) if k in ("status", "cancel", "get", "async") else {"o": "not-executable"}
                 if k == "async" and outs[i]["o"] == "accepted":
                     phase = "async"
                     self.async_accepted = True
                 if outs[i]["o"] != mouts[i]["o"]:
+                    left_path = True
                     break
                 i += 1
                 continue
@@ -462,6 +568,7 @@ class Runner:
                 else:
                     outs[i] = self.perform(ev)
                 if outs[i]["o"] != mouts[i]["o"]:
+                    left_path = True
                     break                  # e.g. a second execute accepted: stop, abort the worker, report
                 i += 1
                 continue
@@ -482,8 +589,11 @@ class Runner:
             if outs[i]["o"] in ("finished", "hang"):
                 phase = "top"
             if outs[i]["o"] != mouts[i]["o"]:
+                left_path = True
                 break
             i += 1
+        if not hook_done and not self.hung and not left_path:
+            self.hook[1]()
         for x in range(n):
             if outs[x] is None:
                 outs[x] = {"o": "not-executed"}
@@ -582,6 +692,9 @@ def direct_oracle(cfg, word, outs, final, hung):
     """Returns (signature, what) for the first clause of the property that the observed history breaks."""
     if hung:          # not reachable through `judge` (which raises HarnessTimeout first); kept as a safety net
         raise HarnessTimeout("hang detector fired")
+    if outs and outs[0]["o"] == "ctor-exc":
+        return "constructor-raises", (f"LocalJob(...) raised {outs[0]['cls']}: {outs[0]['text']} for the legal constructor "
+                                      f"arguments {cfg}")
     accepted = None          # 'sync' | 'async'
     ended = None             # 'ret' | 'raise' | 'propagate'
     cancel_before_end = False
@@ -591,6 +704,8 @@ def direct_oracle(cfg, word, outs, final, hung):
     expect_log = []
     cb = 1 if cfg["cb"] else None
     last_get = None
+    final_seen = None
+    passed_kw = set()
     known = {k for k, _ in cfg["cmd"]} | {k for k, _ in cfg["mapping"]} | {0} | set(cfg["names"])
     n_exec = 0               # execute calls performed so far
     n_rejected = 0           # ... of which refused
@@ -604,6 +719,7 @@ def direct_oracle(cfg, word, outs, final, hung):
             if ev["cbkw"] and accepted is None:
                 cb = 2
             n_exec += 1
+            passed_kw |= {kk for kk, _ in ev["kw"]}
             # "unknown arguments": a keyword nobody declared, or positional arguments beyond the declared
             # names + the ONE trailing max_samples a job takes
             unknown = [key_name(kk) for kk, _ in ev["kw"] if kk not in known]
@@ -635,11 +751,22 @@ def direct_oracle(cfg, word, outs, final, hung):
                 if o["o"] == "status" and o["s"] != "RUNNING":
                     return "status-not-running", f"status {o['s']} reported while the task has not returned"
             elif ended is not None and o["o"] == "status":
+                # the truthful final state: the task RAISED -> ERROR with the exception's type and message, whether or
+                # not a cancel had been requested ("failed ... if the task raised"; a task that raises never *returns*,
+                # so "cancelled if cancellation was requested before it returned" does not apply); the task RETURNED ->
+                # CANCELED when cancellation was requested before, else SUCCESS
                 want = "ERROR" if ended in ("raise", "propagate") else ("CANCELED" if cancel_before_end else "SUCCESS")
                 if o["s"] != want:
                     return "final-status-wrong", f"final status {o['s']}, expected {want} (task ended by {ended}, cancel before end: {cancel_before_end})"
                 if ended == "raise" and o["msg"] != {"task": exc_text}:
                     return "final-message-wrong", f"stop_message {o['msg']} is not '<type>: <message>' of the task's exception"
+                if ended == "ret" and o["msg"] != ("canceled" if cancel_before_end else None):
+                    return "final-message-wrong", (f"stop_message {o['msg']} after a normal return "
+                                                   f"({'cancel requested before it' if cancel_before_end else 'no cancel before it'})")
+                if final_seen is not None and final_seen != (o["s"], json.dumps(o["msg"], sort_keys=True)):
+                    return "final-state-changes", (f"the job reported the final state {final_seen} and later "
+                                                   f"{(o['s'], o['msg'])}: more than one final state")
+                final_seen = (o["s"], json.dumps(o["msg"], sort_keys=True))
             elif accepted is None and o["o"] == "status" and o["s"] != "WAITING":
                 return "status-before-run", (f"status {o['s']} although no execute call has been accepted"
                                              + (f" ({n_rejected} call(s) were refused with an exception: a refused call must "
@@ -662,6 +789,13 @@ def direct_oracle(cfg, word, outs, final, hung):
                     if want is not None and o["r"] not in want:
                         return "results-wrong", f"get_results() returned {o['r']}, expected one of {want}"
         elif k == "start":
+            if o["o"] == "started":
+                foreign = [a for a, _ in o["args"] if a not in known and a not in passed_kw]
+                if foreign:
+                    return "args-misrouted", (f"the task was called with {o['args']}: the parameter(s) "
+                                              f"{[key_name(a) if isinstance(a, int) else a for a in foreign]} are neither "
+                                              f"declared by this job (names {cfg['names']}, preset {cfg['cmd']}) nor passed in "
+                                              "any of its execute calls — arguments nobody passed to this job")
             if o["o"] == "started" and route is not None and o["args"] != sorted(([a, b] for a, b in route[0].items()),
                                                                                  key=lambda e: e[0]):
                 return "args-misrouted", (f"the task was called with {o['args']}, the arguments passed "
@@ -754,23 +888,45 @@ def spec_route(cfg, ev):
 # judging one history
 # ------------------------------------------------------------------------------------------------
 def trace(chk, scn, fixed=True):
+    if "plain" in scn:
+        return None              # an ordinary-use scenario: judged directly, no model history
     rep = chk.lean.ask({"op": "trace", "fixed": fixed, "cfg": scn["cfg"], "word": scn["word"]})
     if "err" in rep:
         raise core.LeanError(f"model rejected the history: {rep['err']}")
     return rep
 
 
-def judge(chk, scn, rep=None):
-    """-> None or (kind, signature, what, index)."""
-    if rep is None:
-        rep = trace(chk, scn)
-    runner = Runner(scn["cfg"])
+def execute(scn, rep, hook=None):
+    """Run one job history against the real code -> (outs, final)."""
+    if "plain" in scn:
+        if hook is not None:
+            hook[1]()
+        ok, what = plain_one(scn["plain"], scn["mode"])
+        return [{"o": "plain", "ok": ok, "what": what}], {}
+    try:
+        runner = Runner(scn["cfg"], ctor=scn.get("ctor"), instant=bool(scn.get("instant")), hook=hook)
+    except Exception as e:      # the constructor of the real class refused legal arguments
+        if hook is not None:
+            hook[1]()
+        return ([{"o": "ctor-exc", "cls": type(e).__name__, "text": str(e)[:200]}]
+                + [{"o": "not-executed"}] * (len(scn["word"]) - 1), {"fnCalls": 0, "cbLog": []})
     outs, final = runner.run(scn["word"], rep["outs"])
     if runner.hung:
         raise HarnessTimeout(f"no acknowledgement from the controlled task within {WAIT} s while executing "
                              f"{[e['e'] for e in scn['word']]} (cfg {scn['cfg']}); outputs so far {outs}")
+    return outs, final
+
+
+def verdict(chk, scn, rep, outs, final):
+    """-> None or (kind, signature, what, index) for one executed job history."""
+    if "plain" in scn:
+        if outs[0]["ok"]:
+            return None
+        sig = "status-in-sync-callback" if (scn["mode"] == "sync" and scn["plain"] != "none"
+                                            and "AttributeError" in outs[0]["what"]) else "plain-callback-outcome"
+        return ("violation", sig, outs[0]["what"], 0)
     diff = compare(scn["word"], outs, final, rep)
-    bad = direct_oracle(scn["cfg"], scn["word"], outs, final, runner.hung)
+    bad = direct_oracle(scn["cfg"], scn["word"], outs, final, False)
     if diff is None:
         if bad is None:
             return None
@@ -778,7 +934,7 @@ def judge(chk, scn, rep=None):
         return ("violation", bad[0], bad[1] + " [the Lean model agrees with the code on this history: the model "
                 "shares the behaviour, or the direct oracle reads the property differently — check both]",
                 len(scn["word"]))
-    idx, why = diff if diff is not None else (len(scn["word"]), "hang")
+    idx, why = diff
     if bad is not None:
         sig, what = bad
         # does the model of the unrepaired code explain the observation?
@@ -792,8 +948,181 @@ def judge(chk, scn, rep=None):
     return ("broken", "model-vs-code", f"step {idx}: {why}; the direct evaluation of the property on this history holds", idx)
 
 
+def judge(chk, scn, rep=None):
+    """-> None or (kind, signature, what, index)."""
+    if rep is None:
+        rep = trace(chk, scn)
+    outs, final = execute(scn, rep)
+    return verdict(chk, scn, rep, outs, final)
+
+
 def strip(scn):
-    return {"cfg": scn["cfg"], "word": scn["word"]}
+    if "plain" in scn:
+        return {"plain": scn["plain"], "mode": scn["mode"]}
+    out = {"cfg": scn["cfg"], "word": scn["word"]}
+    for f in ("ctor", "instant"):
+        if scn.get(f):
+            out[f] = scn[f]
+    return out
+
+
+# ------------------------------------------------------------------------------------------------
+# several jobs in one process
+# ------------------------------------------------------------------------------------------------
+def run_group(jobs, reps, nest):
+    """Create and execute the jobs in order in THIS process.  nest = None: one after the other.  nest = [a, idx]:
+    jobs[:a] one after the other, then job a; before event idx of job a's word is performed (job a possibly in flight in
+    its worker thread) the jobs a+1.. are created and executed completely on the caller thread, then job a goes on.
+    -> [(outs, final)] per job."""
+    results = [None] * len(jobs)
+    if nest is None:
+        for j, (scn, rep) in enumerate(zip(jobs, reps)):
+            results[j] = execute(scn, rep)
+        return results
+    a, idx = nest
+    for j in range(a):
+        results[j] = execute(jobs[j], reps[j])
+
+    def rest():
+        for j in range(a + 1, len(jobs)):
+            results[j] = execute(jobs[j], reps[j])
+    results[a] = execute(jobs[a], reps[a], hook=(idx, rest))
+    for j in range(a + 1, len(jobs)):
+        if results[j] is None:      # job a left the model's path before the hook point: run the others anyway
+            results[j] = execute(jobs[j], reps[j])
+    return results
+
+
+CHILD_MARK = "C18-CHILD-RESULT "
+
+
+def child_main():
+    """Entry point of a FRESH interpreter (`fresh_run`): execute a group, print what was observed."""
+    data = json.loads(sys.stdin.read())
+    silence_logger()
+    threading.excepthook = quiet_abort
+    try:
+        res = run_group(data["jobs"], data["reps"], data["nest"])
+        out = {"results": [[o, f] for o, f in res]}
+    except HarnessTimeout as e:
+        out = {"timeout": str(e)}
+    sys.stdout.write("\n" + CHILD_MARK + json.dumps(out) + "\n")
+    sys.stdout.flush()
+
+
+def fresh_run(chk, jobs, nest):
+    """The verdicts of the jobs of a group executed in a fresh Python process (nothing any earlier job of THIS
+    process may have left behind — class attributes, default arguments, module globals — is there)."""
+    reps = [trace(chk, j) for j in jobs]
+    p = subprocess.run([sys.executable, "-W", "ignore", "-c", "from harness import c18; c18.child_main()"],
+                       input=json.dumps({"jobs": jobs, "reps": reps, "nest": nest}), capture_output=True, text=True,
+                       cwd=core.VERIF, timeout=6 * WAIT)
+    line = next((ln for ln in p.stdout.splitlines() if ln.startswith(CHILD_MARK)), None)
+    if line is None:
+        raise HarnessTimeout(f"fresh-process run gave no result (exit {p.returncode}): {p.stderr[-400:]}")
+    out = json.loads(line[len(CHILD_MARK):])
+    if "timeout" in out:
+        raise HarnessTimeout("fresh-process run: " + out["timeout"])
+    return [verdict(chk, j, rep, o, f) for j, rep, (o, f) in zip(jobs, reps, out["results"])]
+
+
+def drop_job(jobs, nest, x):
+    """the group without job x (the outer job of a nesting removed -> plain sequence)"""
+    jobs2 = jobs[:x] + jobs[x + 1:]
+    if nest is None:
+        return jobs2, None
+    a, idx = nest
+    if x == a:
+        return jobs2, None
+    return jobs2, [a - 1 if x < a else a, idx]
+
+
+def confirm(chk, seen, jobs, nest, t, v):
+    """A job history (jobs[t]) failed in this process with verdict v.  Decide in FRESH processes what the failing input
+    is: the history alone, or the history after/while other jobs of the same process — and report accordingly."""
+    kind, sig, what, _ = v
+    go = seen.wanted(kind, sig)
+    seen.sigs[("seen", kind, sig)] = seen.sigs.get(("seen", kind, sig), 0) + 1
+    chk.count("failures", f"{kind}:{sig}")
+    if not go:
+        return
+    if seen.replaying:
+        chk.fail(kind, sig, what, strip(jobs[t]) if len(jobs) == 1 else {"jobs": jobs, "nest": nest, "failing_job": t})
+        return
+
+    def fails(js, ns, tt):
+        r = fresh_run(chk, js, ns)[tt]
+        return r if (r is not None and r[1] == sig) else None
+
+    alone = fails([jobs[t]], None, 0)
+    if alone is not None:
+        chk.fail(alone[0], sig, alone[2], strip(jobs[t]))
+        return
+    cands = []
+    if len(jobs) > 1:
+        cands.append((jobs, nest, t))
+    # the unshrunk original (a history minimised in a process whose earlier jobs matter is not trustworthy)
+    orig = seen.original if seen.original is not None else jobs[t]
+    recent = list(seen.history)[-10:]
+    short = [j for j in seen.short if not any(j is r for r in recent)][-8:]
+    for prefix in ([recent] if not short else [recent, short + recent]):
+        if nest is None:
+            cands.append((prefix + jobs[:t] + [orig], None, len(prefix) + t))
+        else:
+            cands.append((prefix + jobs, [nest[0] + len(prefix), nest[1]], len(prefix) + t))
+    for js, ns, tt in cands:
+        r = fails(js, ns, tt)
+        if r is None:
+            continue
+        budget = 24
+        x = len(js) - 1
+        while x >= 0 and budget > 0:       # drop every job that is not needed
+            if x != tt and len(js) > 2:
+                js2, ns2 = drop_job(js, ns, x)
+                tt2 = tt - 1 if x < tt else tt
+                budget -= 1
+                r2 = fails(js2, ns2, tt2)
+                if r2 is not None:
+                    js, ns, tt, r = js2, ns2, tt2, r2
+            x -= 1
+        others = len(js) - 1
+        chk.fail(r[0], sig + "-after-other-jobs",
+                 r[2] + f" [job {tt} of the replay: {others} other LocalJob(s) are created/executed in the same process "
+                 f"{'while it is in flight / before it' if ns is not None else 'before it'}; the same history on a job "
+                 "that is alone in a fresh process is handled correctly — state leaks from one job to another]",
+                 {"jobs": [strip(j) for j in js], "nest": ns, "failing_job": tt})
+        return
+    seen.sigs[("unreproduced", kind, sig)] = seen.sigs.get(("unreproduced", kind, sig), 0) + 1
+    chk.fail("broken", "depends-on-process-history",
+             f"{kind} {sig}: {what} — observed in the check's process but reproduced neither alone nor after the preceding "
+             "jobs in a fresh process: the outcome of a job depends on what ran earlier in the process (or is not "
+             "deterministic)", {"jobs": [strip(j) for j in seen.history][-10:] + [strip(jobs[t])], "nest": None,
+                                "failing_job": min(len(seen.history), 10)})
+
+
+def group_sig(jobs, nest):
+    return json.dumps([[word_sig(j) for j in jobs], nest])
+
+
+def handle_group(chk, jobs, nest, seen):
+    jobs = [strip(j) for j in jobs]
+    reps = [trace(chk, j) for j in jobs]
+    for j, rep in zip(jobs, reps):
+        if rep is not None:
+            note_branches(chk, j, rep)
+    note_group(chk, jobs, reps, nest)
+    results = run_group(jobs, reps, nest)
+    chk.case(group_sig(jobs, nest), nontrivial=True,
+             sample={"jobs": [j if "plain" in j else {"cfg": j["cfg"], "ctor": j.get("ctor"), "word": [e["e"] for e in j["word"]]}
+                              for j in jobs], "nest": nest})
+    for t, (j, rep, (outs, final)) in enumerate(zip(jobs, reps, results)):
+        v = verdict(chk, j, rep, outs, final)
+        if v is not None:
+            seen.original = None
+            confirm(chk, seen, jobs, nest, t, v)
+            break
+    for j in jobs:
+        seen.record(j)
 
 
 def shrink(chk, scn, sig):
@@ -962,10 +1291,10 @@ def rand_ret(rng):
     return {"t": "none"}
 
 
-def rand_word(chk, rng, cfg, max_len, malformed):
+def rand_word(chk, rng, cfg, max_len, malformed, mode=None):
     """Random model-enabled closed word: at each position a random letter is proposed and the model says
     whether it is enabled."""
-    mode = rng.choice(["sync", "async"])
+    mode = mode or rng.choice(["sync", "async"])
     word = []
     steps = rng.randint(3, max_len)
     closing = False
@@ -1020,6 +1349,163 @@ def rand_word(chk, rng, cfg, max_len, malformed):
     return word
 
 
+def make_instant(chk, cfg, word):
+    """Turn a word into one whose asynchronous run needs no caller thread while the task is in flight: in-flight
+    caller actions that are not inside an open user callback are dropped (the others are marked "in the callback").
+    -> the scenario with instant=True, or None if the task of the word is not an accepted execute_async that ends."""
+    word = copy.deepcopy(word)
+    for _ in range(len(word) + 1):
+        rep = trace(chk, {"cfg": cfg, "word": word})
+        mouts = rep["outs"]
+        idx = next((x for x, (e, o) in enumerate(zip(word, mouts)) if e["e"] in ("sync", "async") and o["o"] == "accepted"),
+                   None)
+        if idx is None or word[idx]["e"] != "async":
+            return None
+        cb_open = False
+        drop = None
+        for x in range(idx + 1, len(word)):
+            o = mouts[x]
+            if o["o"] == "disabled":
+                continue
+            if word[x]["e"] in TASK_KINDS:
+                cb_open = o["o"] == "progressed" and o["cb"] is not None
+                if o["o"] == "finished":
+                    break
+            elif not cb_open:
+                drop = x
+                break
+            else:
+                word[x]["where"] = "cb"
+        else:
+            return None
+        if drop is None:
+            return {"cfg": cfg, "word": word, "instant": True} if is_closed(rep["final"]) else None
+        del word[drop]
+    return None
+
+
+BARE_CTORS = [{"delta": "omit", "names": "omit", "mapfn": "omit"}, {"delta": "omit", "names": "explicit", "mapfn": "explicit"},
+              {"delta": "omit", "names": "omit", "mapfn": "explicit"}, {"delta": "none", "names": "omit", "mapfn": "omit"},
+              {"delta": "explicit", "names": "explicit", "mapfn": "explicit"}]
+
+
+def rand_bare_job(chk, rng, max_len, mode=None):
+    """a job constructed the short way — LocalJob(fn[, mapping function][, command_param_names=...]) without
+    delta_parameters (3 times out of 5 omitted, else None or the explicit empty dictionaries) — with a random history"""
+    cfg = {"names": rng.sample([1, 2, 3], rng.randint(0, 3)), "cmd": [], "mapping": [],
+           "map": rng.random() < 0.5, "cb": rng.random() < 0.6}
+    ctor = dict(rng.choice(BARE_CTORS[:3] if rng.random() < 0.6 else BARE_CTORS))
+    word = rand_word(chk, rng, cfg, rng.randint(3, max_len), rng.random() < 0.12, mode=mode)
+    return {"cfg": cfg, "word": word, "ctor": ctor}
+
+
+def rand_group(chk, rng, max_len):
+    """2..4 jobs of one process: mostly jobs constructed without delta_parameters, with different declared names and
+    different numbers of arguments passed; with probability 0.4 the later jobs are created and executed while the
+    first one is in flight (execute_async) or between two of its events"""
+    k = rng.choice([2, 2, 2, 3, 3, 4])
+    nested = rng.random() < 0.4
+    jobs = []
+    for j in range(k):
+        mode = "async" if (nested and j == 0) else None
+        if rng.random() < 0.8:
+            jobs.append(rand_bare_job(chk, rng, max_len, mode))
+        else:
+            cfg = rand_cfg(rng)
+            jobs.append({"cfg": cfg, "word": rand_word(chk, rng, cfg, rng.randint(3, max_len), False, mode=mode)})
+    nest = [0, rng.randint(1, len(jobs[0]["word"]))] if nested else None
+    return jobs, nest
+
+
+def group_scenarios(chk, seen):
+    """Deterministic multi-job histories: for sync/async x the three short constructor forms, a first job that is given
+    all its positional arguments (+ the trailing max_samples) and ends by return / raise / cancel+return, then — or
+    meanwhile — a second and a third job that declare other names and are given fewer arguments; and a job refused for
+    an unknown argument followed by a job called legally.  Every job must behave as if it were alone."""
+    n = 0
+    ends = [[{"e": "ret", "r": RET0}], [{"e": "raise", "cls": 1, "msg": 1}], [{"e": "cancel", "where": "cb"}, {"e": "ret", "r": RET0}]]
+    tail = [{"e": "status"}, {"e": "get"}, {"e": "status"}]
+    for mi, mode in enumerate(("sync", "async")):
+        for ci, ctor in enumerate(BARE_CTORS[:3]):
+            for ei, end in enumerate(ends):
+                a = {"cfg": {"names": [1, 2], "cmd": [], "mapping": [], "map": True, "cb": True}, "ctor": ctor,
+                     "word": [call(args=[5, 6, 9], e=mode), {"e": "start"}, {"e": "prog", "p": 2}] + end + tail}
+                b = {"cfg": {"names": [1], "cmd": [], "mapping": [], "map": True, "cb": True}, "ctor": ctor,
+                     "word": [call(args=[7], e=("async" if (mi + ei) % 2 else "sync")), {"e": "start"}, {"e": "prog", "p": 5},
+                              {"e": "status", "where": "cb"}, {"e": "ret", "r": {"t": "dlist", "l": [[[[0, 4]], 1], [[], 2]]}}] + tail}
+                c = {"cfg": {"names": [3], "cmd": [], "mapping": [], "map": False, "cb": False}, "ctor": BARE_CTORS[(ci + 1) % 3],
+                     "word": [{"e": "status"}, call(args=[], e=mode), {"e": "start"}, {"e": "prog", "p": 1},
+                              {"e": "ret", "r": RET0}] + tail}
+                nest = [0, 3] if (mode == "async" and ei != 1) or (ci == 0 and mode == "async") else None
+                chk.branch("group-scenario")
+                handle_group(chk, copy.deepcopy([a, b, c]), nest, seen)
+                n += 1
+            r = {"cfg": {"names": [1, 2], "cmd": [], "mapping": [], "map": False, "cb": False}, "ctor": ctor,
+                 "word": [call(args=[5, 6], kw=[[6, 1]], e=mode), {"e": "status"}]}
+            b = {"cfg": {"names": [2], "cmd": [], "mapping": [], "map": False, "cb": True}, "ctor": ctor,
+                 "word": [call(args=[], e=mode), {"e": "start"}, {"e": "ret", "r": RET0}] + tail}
+            chk.branch("group-scenario")
+            handle_group(chk, copy.deepcopy([r, b]), None, seen)
+            n += 1
+    chk.extra["group_scenarios"] = n
+
+
+def instant_scenarios(chk, seen):
+    """Deterministic "instant" asynchronous histories (the task is over before execute_async's Thread.start() returns):
+    raise at once / return at once / cancel requested beforehand / progress with the caller acting inside the callback."""
+    cfg = {"names": [1], "cmd": [], "mapping": [[2, 3]], "map": True, "cb": True}
+    ex = call(args=[5], e="async")
+    tail = [{"e": "status"}, {"e": "get"}, {"e": "status"}, {"e": "get"}]
+    words = [
+        [ex, {"e": "start"}, {"e": "raise", "cls": 0, "msg": 1}],
+        [ex, {"e": "start"}, {"e": "ret", "r": RET0}],
+        [{"e": "cancel"}, ex, {"e": "start"}, {"e": "ret", "r": RET0}],
+        [{"e": "cancel"}, ex, {"e": "start"}, {"e": "prog", "p": 2}, {"e": "raise", "cls": 2, "msg": 2}],
+        [ex, {"e": "start"}, {"e": "prog", "p": 3}, {"e": "status", "where": "cb"}, {"e": "cancel", "where": "cb"},
+         {"e": "prog", "p": 4}, {"e": "ret", "r": RET0}],
+        [ex, {"e": "start"}, {"e": "prog", "p": 3}, {"e": "get", "where": "cb"}, {"e": "cancel", "where": "cb"},
+         {"e": "raise", "cls": 4, "msg": 0}],
+        [ex, {"e": "start"}, {"e": "prog", "p": 3}, {"e": "get", "where": "cb"}, {"e": "propagate"}],
+    ]
+    for w in words:
+        chk.branch("instant-scenario")
+        handle(chk, {"cfg": cfg, "word": copy.deepcopy(w + tail), "instant": True}, seen)
+
+
+def note_group(chk, jobs, reps, nest):
+    chk.branch("multi-job-group")
+    chk.count("group-size", len(jobs))
+    if nest is not None:
+        chk.branch("multi-job-nested")
+        o = reps[nest[0]]["outs"] if reps[nest[0]] is not None else []
+        acc = next((x for x, oo in enumerate(o) if oo["o"] == "accepted"), None)
+        fin = next((x for x, oo in enumerate(o) if oo["o"] == "finished"), len(o))
+        if acc is not None and jobs[nest[0]]["word"][acc]["e"] == "async" and acc < nest[1] <= fin:
+            chk.branch("other-job-while-in-flight")
+    routed = set()          # keys some earlier job created without delta_parameters was given
+    for j, rep in zip(jobs, reps):
+        if rep is None:
+            continue
+        omitted = j.get("ctor", {}).get("delta") == "omit" and not j["cfg"]["cmd"] and not j["cfg"]["mapping"]
+        if omitted:
+            chk.branch("ctor-delta-omitted")
+        if j.get("ctor", {}).get("names") == "omit" and not j["cfg"]["names"]:
+            chk.branch("ctor-names-omitted")
+        started = next((oo for oo in rep["outs"] if oo["o"] == "started"), None)
+        if omitted and started is not None and routed - {k for k, _ in started["args"]} - {"ms"}:
+            chk.branch("later-job-omits-argument")
+        if omitted and started is not None and "ms" in routed and j["cfg"]["map"] and \
+                not any(len(e.get("args", ())) > len(j["cfg"]["names"]) for e in j["word"] if e["e"] in ("sync", "async")):
+            chk.branch("later-job-omits-max-samples")
+        if omitted:
+            for e in j["word"]:
+                if e["e"] in ("sync", "async"):
+                    names = j["cfg"]["names"]
+                    routed |= set(names[:len(e["args"])])
+                    if len(e["args"]) > len(names):
+                        routed.add("ms")
+
+
 def phase_after(chk, cfg, word):
     rep = chk.lean.ask({"op": "ext", "fixed": True, "cfg": cfg, "word": word, "letters": []})
     if "err" in rep:
@@ -1038,12 +1524,27 @@ def note_branches(chk, scn, rep):
     rejected = 0             # execute calls refused so far on the still WAITING job
     cfg = scn["cfg"]
     known = {k for k, _ in cfg["cmd"]} | {k for k, _ in cfg["mapping"]} | {0} | set(cfg["names"])
-    for ev, o in zip(word, mouts):
+    instant_end = None       # index of the last event of an "instant" asynchronous segment
+    for pos, (ev, o) in enumerate(zip(word, mouts)):
         k, oo = ev["e"], o["o"]
         if oo == "disabled":
             chk.branch("disabled-skipped")
             continue
         chk.count("event", k)
+        if k == "async" and oo == "accepted" and scn.get("instant") and not flight:
+            seg = instant_segment(word, mouts, pos)
+            if seg is not None:
+                instant_end = seg[-1]
+                chk.branch("async-instant")
+                if any(word[x]["e"] not in TASK_KINDS for x in seg):
+                    chk.branch("async-instant-cb-action")
+        if instant_end == pos:
+            if k == "raise":
+                chk.branch("async-instant-raise")
+            if k == "ret" and cancel:
+                chk.branch("async-instant-cancel-return")
+        if k in ("raise", "propagate") and cancel and flight:
+            chk.branch(f"cancel-then-{k}-{mode}")
         if k in ("sync", "async") and mode is None:
             surplus = len(ev["args"]) - len(cfg["names"]) - 1
             unknown_kw = any(kk not in known for kk, _ in ev["kw"])
@@ -1115,8 +1616,10 @@ def note_branches(chk, scn, rep):
 
 
 def word_sig(scn):
+    if "plain" in scn:
+        return json.dumps(["plain", scn["plain"], scn["mode"]])
     c = scn["cfg"]
-    return json.dumps([c["names"], c["cmd"], c["mapping"], c["map"], c["cb"],
+    return json.dumps([c["names"], c["cmd"], c["mapping"], c["map"], c["cb"], scn.get("ctor"), bool(scn.get("instant")),
                        [[e.get(f) for f in ("e", "p", "r", "cls", "msg", "args", "kw", "cbkw", "where")] for e in scn["word"]]],
                       sort_keys=True)
 
@@ -1137,6 +1640,21 @@ def nontrivial(rep):
 class Seen:
     def __init__(self):
         self.sigs = {}
+        self.history = collections.deque(maxlen=12)   # the job histories executed last in this process
+        self.short = collections.deque(maxlen=12)     # ... those of jobs constructed without delta_parameters
+        self.original = None
+        self.replaying = False
+
+    def record(self, scn):
+        self.history.append(scn)
+        if "plain" in scn or scn.get("ctor", {}).get("delta") in ("omit", "none"):
+            self.short.append(scn)
+
+    def wanted(self, kind, sig):
+        """work on a (further) witness of this failure?  One witness per defect — but up to three attempts as long as
+        none of the earlier ones could be reproduced in a fresh process"""
+        n = self.sigs.get(("seen", kind, sig), 0)
+        return n == 0 or (self.sigs.get(("unreproduced", kind, sig), 0) == n and n < 3)
 
 
 def handle(chk, scn, seen, rep=None):
@@ -1146,24 +1664,29 @@ def handle(chk, scn, seen, rep=None):
     res = judge(chk, scn, rep)
     chk.case(word_sig(scn), nontrivial=nontrivial(rep),
              sample={"cfg": scn["cfg"], "word": [e["e"] for e in scn["word"]]})
-    if res is None:
-        return
-    kind, sig, what, idx = res
-    n = seen.sigs.get((kind, sig), 0)
-    seen.sigs[(kind, sig)] = n + 1
-    chk.count("failures", f"{kind}:{sig}")
-    if n > 0:
-        return                      # one minimised witness per defect; the rest is counted
-    small = strip(scn) if os.environ.get("C18_NOSHRINK") else shrink(chk, scn, sig)
-    r2 = judge(chk, small)
-    if r2 is not None and r2[1] == sig:
-        what = r2[2]
-    chk.fail(kind, sig, what, small)
+    if res is not None:
+        kind, sig, what, idx = res
+        if not seen.wanted(kind, sig):      # one minimised witness per defect; the rest is counted
+            seen.sigs[("seen", kind, sig)] += 1
+            chk.count("failures", f"{kind}:{sig}")
+        else:
+            small = strip(scn) if os.environ.get("C18_NOSHRINK") else shrink(chk, scn, sig)
+            r2 = judge(chk, small)
+            if r2 is None or r2[1] != sig:
+                small, r2 = strip(scn), res
+            seen.original = strip(scn)
+            confirm(chk, seen, [small], None, 0, (r2[0], sig, r2[2], r2[3]))
+            seen.original = None
+    seen.record(strip(scn))
 
 
-def plain_scenarios(chk, seen):
-    """`callback_transparent` evaluated directly with ordinary (non-catching) user callbacks: a user who
-    prints the job's state from the progress callback must get the same outcome as one who does not."""
+PLAIN_PEEKS = {"status": lambda j: j.status(), "is_running": lambda j: j.is_running,
+               "is_complete": lambda j: j.is_complete, "none": lambda j: None}
+
+
+def plain_one(name, mode):
+    """One ordinary use of a job — LocalJob(task, command_param_names=["n"]), a user callback that reads job.<name>
+    and does not catch anything, execute_<mode>(3) — evaluated directly.  -> (ok, description of the outcome)."""
     from perceval.runtime import LocalJob
 
     entered = threading.Event()
@@ -1178,40 +1701,52 @@ def plain_scenarios(chk, seen):
             out.append(i * i)
         return {"results": out}
 
-    for name, peek in (("status", lambda j: j.status()), ("is_running", lambda j: j.is_running),
-                       ("is_complete", lambda j: j.is_complete), ("none", lambda j: None)):
-        for mode in ("sync", "async"):
-            seen_log = []
-            job = LocalJob(task, command_param_names=["n"])
-            job.set_progress_callback(lambda p, ph, job=job, peek=peek: seen_log.append((p, peek(job))) and None)
-            if mode == "sync":
-                try:
-                    res = job.execute_sync(3)
-                except Exception as e:
-                    res = f"{type(e).__name__}: {e}"
-            else:
-                entered.clear()
-                del worker[:]
-                job.execute_async(3)
-                if not entered.wait(WAIT):
+    peek = PLAIN_PEEKS[name]
+    seen_log = []
+    job = LocalJob(task, command_param_names=["n"])
+    job.set_progress_callback(lambda p, ph: seen_log.append((p, peek(job))) and None)
+    try:
+        if mode == "sync":
+            res = job.execute_sync(3)
+        else:
+            job.execute_async(3)
+            waited = 0.0
+            while not entered.wait(0.05):       # hang detector only; a task that is never entered (the call itself
+                waited += 0.05                  # failed in the worker) shows as a completed job
+                if job.is_complete:
+                    break
+                if waited > WAIT:
                     raise HarnessTimeout("plain scenario: the worker thread did not enter the task")
+            if worker:
                 worker[0].join(WAIT)
                 if worker[0].is_alive():
                     raise HarnessTimeout("plain scenario: the worker thread did not finish")
-                res = job.get_results() if job.is_complete else "not complete"
-            st = job.status
-            ok = st() == "SUCCESS" and res == {"results": [0, 1, 4]} and [p for p, _ in seen_log] == [1 / 3, 2 / 3, 1.0]
+            res = job.get_results() if job.is_complete else "not complete"
+    except HarnessTimeout:
+        raise
+    except Exception as e:
+        res = f"{type(e).__name__}: {e}"
+    st = job.status
+    ok = st() == "SUCCESS" and res == {"results": [0, 1, 4]} and [p for p, _ in seen_log] == [1 / 3, 2 / 3, 1.0]
+    return ok, (f"a job LocalJob(task, command_param_names=['n']) whose progress callback reads job.{name}, run with "
+                f"execute_{mode}(3): final status {st()} ({st.stop_message}), result {res!r}, callback saw {len(seen_log)} of "
+                f"3 progress values; expected SUCCESS with [0, 1, 4] and 3 progress values (the outcome without any read)")
+
+
+def plain_scenarios(chk, seen):
+    """`callback_transparent` evaluated directly with ordinary (non-catching) user callbacks: a user who
+    prints the job's state from the progress callback must get the same outcome as one who does not."""
+    for name in PLAIN_PEEKS:
+        for mode in ("sync", "async"):
+            scn = {"plain": name, "mode": mode}
+            outs, final = execute(scn, None)
             chk.case(("plain", name, mode), nontrivial=True)
             chk.branch("plain-callback")
-            if not ok:
-                sig = "status-in-sync-callback" if (mode == "sync" and name != "none") else "plain-callback-outcome"
-                if seen.sigs.get(("violation", sig), 0) == 0:
-                    chk.fail("violation", sig,
-                             f"a progress callback that reads job.{name} during execute_{mode}(3) changes the outcome: "
-                             f"final status {st()} ({st.stop_message}), result {res!r}, callback saw {len(seen_log)} of 3 "
-                             f"progress values; without the read the job ends SUCCESS with [0, 1, 4]",
-                             {"plain": name, "mode": mode})
-                seen.sigs[("violation", sig)] = seen.sigs.get(("violation", sig), 0) + 1
+            v = verdict(chk, scn, None, outs, final)
+            if v is not None:
+                seen.original = None
+                confirm(chk, seen, [scn], None, 0, v)
+            seen.record(scn)
 
 
 def argument_scenarios(chk, seen):
@@ -1259,7 +1794,10 @@ def load_corpus():
     out = []
     for p in sorted(glob.glob(os.path.join(core.VERIF, "corpus", "C18", "*.json"))):
         d = json.load(open(p))
-        out.append({"cfg": d["cfg"], "word": d["word"]})
+        if "jobs" in d:
+            out.append({"jobs": d["jobs"], "nest": d.get("nest")})
+        else:
+            out.append(strip(d))
     return out
 
 
@@ -1312,12 +1850,23 @@ def run(chk: core.Check):
                              "results-while-running", "plain-callback",
                              "surplus-positional", "surplus-positional-sync", "surplus-positional-async",
                              "surplus-positional-only", "unknown-keyword", "status-after-rejection",
-                             "accepted-after-rejection", "argument-scenario"]
+                             "accepted-after-rejection", "argument-scenario",
+                             "cancel-then-raise-sync", "cancel-then-raise-async",
+                             "async-instant", "async-instant-raise", "async-instant-cancel-return",
+                             "async-instant-cb-action", "instant-scenario",
+                             "multi-job-group", "multi-job-nested", "other-job-while-in-flight", "ctor-delta-omitted",
+                             "ctor-names-omitted", "later-job-omits-argument", "later-job-omits-max-samples",
+                             "group-scenario"]
     for scn in load_corpus():
         chk.branch("corpus")
-        handle(chk, scn, seen)
+        if "jobs" in scn:
+            handle_group(chk, scn["jobs"], scn["nest"], seen)
+        else:
+            handle(chk, scn, seen)
+    group_scenarios(chk, seen)
     plain_scenarios(chk, seen)
     argument_scenarios(chk, seen)
+    instant_scenarios(chk, seen)
     # exhaustive interleavings
     # (task events incl. start and end, caller actions); the first (positional) configuration gets the
     # large bound, the two other ways of passing the argument a smaller one
@@ -1325,6 +1874,7 @@ def run(chk: core.Check):
     side = {"sync": chk.pick((3, 2), (4, 3)), "async": chk.pick((3, 2), (4, 2))}
     bounds = {}
     total = 0
+    n_instant = 0
     for way, (cfg, callkw) in base_cfgs().items():
         for mode in ("sync", "async"):
             t, c = full[mode] if way == "positional" else side[mode]
@@ -1342,9 +1892,23 @@ def run(chk: core.Check):
                         if e["e"] in ("status", "cancel", "get", "async"):
                             e["where"] = "cb" if (total + n_) % 2 else "main"
                 handle(chk, {"cfg": cfg, "word": w}, seen, rep)
+                if mode == "async" and way != "keyword":
+                    # the other extreme schedule of the execute_async call: the task runs through before
+                    # Thread.start() returns (possible whenever no caller-thread action is needed in flight)
+                    acc = next((x for x, o in enumerate(rep["outs"]) if o["o"] == "accepted"), None)
+                    if acc is not None and instant_segment(w, rep["outs"], acc) is not None:
+                        n_instant += 1
+                        handle(chk, {"cfg": cfg, "word": copy.deepcopy(w), "instant": True}, seen, rep)
     chk.extra["bounds"] = bounds
     chk.extra["exhaustive_closed_words"] = total
+    chk.extra["exhaustive_words_also_run_instant"] = n_instant
     chk.exhaustive = True
+    # several jobs in one process
+    n_groups = chk.pick(160, 800)
+    for _ in range(n_groups):
+        jobs, nest = rand_group(chk, rng, chk.pick(8, 14))
+        handle_group(chk, jobs, nest, seen)
+    chk.extra["random_job_groups"] = n_groups
     # random longer histories
     n = chk.pick(800, 4000)
     max_len = chk.pick(14, 40)
@@ -1354,17 +1918,25 @@ def run(chk: core.Check):
         word = rand_word(chk, rng, cfg, rng.randint(4, max_len), malformed)
         if malformed:
             chk.branch("malformed-stream")
-        handle(chk, {"cfg": cfg, "word": word}, seen)
+        scn = {"cfg": cfg, "word": word}
+        if rng.random() < 0.3:
+            scn = make_instant(chk, cfg, word) or scn
+        handle(chk, scn, seen)
     chk.extra["random_histories"] = n
-    chk.extra["failures_by_signature"] = {f"{k}:{s}": v for (k, s), v in seen.sigs.items()}
+    chk.extra["failures_by_signature"] = {":".join(str(x) for x in k): v for k, v in seen.sigs.items()}
 
 
 def replay(chk, data):
     setup(chk)
     chk.rule = "replay of one stored history"
     seen = Seen()
+    seen.replaying = True
     rp = data["replay"]
     if "plain" in rp:
         plain_scenarios(chk, seen)
         return
-    handle(chk, {"cfg": rp["cfg"], "word": rp["word"]}, seen)
+    if "jobs" in rp:
+        chk.branch("replay-group")
+        handle_group(chk, rp["jobs"], rp.get("nest"), seen)
+        return
+    handle(chk, strip(rp), seen)
